@@ -15,6 +15,7 @@ import (
 	"strconv"
 	"strings"
 	"time"
+	"unicode"
 
 	"github.com/jcmturner/gofork/encoding/asn1"
 	"github.com/jcmturner/gokrb5/v8/iana/etypeID"
@@ -171,9 +172,9 @@ func (l *LibDefaults) parseLines(lines []string) error {
 		case "default_realm":
 			l.DefaultRealm = strings.TrimSpace(p[1])
 		case "default_tgs_enctypes":
-			l.DefaultTGSEnctypes = strings.Fields(p[1])
+			l.DefaultTGSEnctypes = splitETypeList(p[1])
 		case "default_tkt_enctypes":
-			l.DefaultTktEnctypes = strings.Fields(p[1])
+			l.DefaultTktEnctypes = splitETypeList(p[1])
 		case "dns_canonicalize_hostname":
 			v, err := parseBoolean(p[1])
 			if err != nil {
@@ -242,7 +243,7 @@ func (l *LibDefaults) parseLines(lines []string) error {
 			}
 			l.NoAddresses = v
 		case "permitted_enctypes":
-			l.PermittedEnctypes = strings.Fields(p[1])
+			l.PermittedEnctypes = splitETypeList(p[1])
 		case "preferred_preauth_types":
 			p[1] = strings.TrimSpace(p[1])
 			t := strings.Split(p[1], ",")
@@ -630,6 +631,13 @@ func NewFromScanner(scanner *bufio.Scanner) (*Config, error) {
 		}
 	}
 	return c, e
+}
+
+// Split the value of an enctype list relation: "The list may be delimited with commas or whitespace" (krb5.conf(5)).
+func splitETypeList(s string) []string {
+	return strings.FieldsFunc(s, func(r rune) bool {
+		return r == ',' || unicode.IsSpace(r)
+	})
 }
 
 // Parse a space delimited list of ETypes into a list of EType numbers optionally filtering out weak ETypes.
